@@ -151,6 +151,10 @@ func prepareModules() error {
 			// wait for reports
 			rep = <-reports
 			if rep.err != nil {
+				// Wait for all other modules that are still preparing.
+				for reportCnt++; reportCnt < execCnt; reportCnt++ {
+					<-reports
+				}
 				if errors.Is(rep.err, ErrCleanExit) {
 					return rep.err
 				}
@@ -202,6 +206,11 @@ func startModules() error {
 			// wait for reports
 			rep = <-reports
 			if rep.err != nil {
+				// Wait for all other modules that are still starting, so
+				// that none of them comes online after we have returned.
+				for reportCnt++; reportCnt < execCnt; reportCnt++ {
+					<-reports
+				}
 				rep.module.NewErrorMessage("start module", rep.err).Report()
 				return fmt.Errorf("modules: could not start module %s: %w", rep.module.Name, rep.err)
 			}
